@@ -29,7 +29,9 @@ CHECKS = {
         "packaging.specifiers on every run; the parser and VersionRange.allows models are tied to the code by running the "
         "extracted model and parse_constraint(...).allows on the same ~110k (specifier set, candidate) cases, and VersionRange.allows itself is "
         "re-translated from /repo on every run and proved equal to the model's (a change of meaning breaks a proof obligation); comma sets "
-        "and '||' of any clauses of the closed class of C05 ('!=' included) mean the conjunction / disjunction of the clauses; the property "
+        "and '||' of any clauses of the closed class of C05 ('!=' included) mean the conjunction / disjunction of the clauses; end to end, the text "
+        "'op1 V1, op2 V2, ...' (six comparison operators, literals in normal form, mutually regular) admits a regular candidate - local label, pre/post/dev "
+        "segments included - exactly when every PEP 440 specifier 'op_i V_i' of Spec/Specifier.v does (C04_comma_set_text_to_specifiers); the property "
         "itself is evaluated on the implementation against SpecifierSet.contains(prereleases=True) for every in-domain case.",
    design="8/C04",
    note=BASE_NOTE + "Also proved by composition (Proofs/ParseCompose.v): what _parse_constraint builds from a comma set of range-like clauses "
@@ -50,7 +52,8 @@ CHECKS = {
         "CLOSURE: VersionUnion.of returns its members in order and strictly apart, so constraints over mutually regular bounds with good, ordered, "
         "separated members form a class closed under union / intersection / difference, and every expression built from the three operations "
         "over such constraints evaluates to a constraint admitting exactly what the expression means (C05_class_closed_and_exact, "
-        "C05_every_expression: the sortedness hypothesis is no longer only evaluated, it is preserved). The bound comparisons of "
+        "C05_every_expression: the sortedness hypothesis is no longer only evaluated, it is preserved), and every such expression is defined "
+        "(C05_every_expression_defined: no assertion, recursion guard or fuel limit is reached, for any history). The bound comparisons of "
         "version_range_constraint.py are re-translated from /repo on every run and proved equal to the model's (a change of meaning "
         "breaks a proof obligation). All operations at every level are also decided by correspondence: model and implementation run "
         "on the same 2500 generated pairs x 3 operations per quick run, compared structurally and on ~35 critical probes per case; "
@@ -101,7 +104,7 @@ CHECKS = {
    technique="Coq proof of the bookkeeping state machine + translator-checked bit arithmetic + replay of real operation logs + artefact oracle"),
  "C02": dict(
    text="Coq theorems: the marker the decorated intersection returns for the declared markers, the python range and the platform list holds "
-        "exactly when all three hold, on every class of clauses meeting C07's premises (proved outright for string ==/!= clauses), and never where one fails; the python condition is the exact reading "
+        "exactly when all three hold, on every class of clauses meeting C07's premises (proved outright for the three clause classes of C07: string ==/!=, 'extra', python_full_version comparisons), and never where one fails; the python condition is the exact reading "
         "of the range (C11); Provides-Extra normal form is stable. The whole pipeline pyproject -> METADATA is judged on generated "
         "projects: every Requires-Dist line is parsed by packaging and evaluated on candidate versions and an interpreter/platform/extras "
         "grid against the declared meaning; Requires-Python and Provides-Extra likewise.",
@@ -177,7 +180,7 @@ CHECKS = {
  "C13": dict(
    text="Coq theorems: evaluation depends on the Boolean structure only; re-building a conjunction/disjunction from its members (what "
         "parsing printed text does) keeps the meaning; cnf, dnf, MultiMarker.of and MarkerUnion.of keep the truth table on every clause "
-        "class meeting C07's premises, and with no premise for markers over string ==/!= clauses. Every cnf/dnf/intersect/union/invert "
+        "class meeting C07's premises, and with no premise for markers over string ==/!= clauses, 'extra' clauses and python_full_version comparison clauses (the three clause classes of C07). Every cnf/dnf/intersect/union/invert "
         "result (and the normal forms of those) is checked for truth-table equality, promised shape, and its text is re-parsed by "
         "poetry-core and by packaging and compared on the environment grid; the model computes the same normal forms and must print the "
         "same text byte for byte.",
@@ -207,7 +210,7 @@ CHECKS = {
  "C17": dict(
    text="Coq theorems: the projection onto a set of names mentions only those names and holds wherever the marker holds (unsimplified "
         "structure); only() as implemented, with its re-simplification through MultiMarker.of/MarkerUnion.of, weakens on every clause class "
-        "meeting C07's premises and with no premise for markers over string ==/!= clauses. exclude / reduce_by_python_constraint are "
+        "meeting C07's premises and with no premise for markers over the three clause classes of C07 (string, 'extra', python_full_version comparisons). exclude / reduce_by_python_constraint are "
         "judged on the implementation (names, weakening on the environment grid, exactness inside the Python range on interpreter grids).",
    design="8/C17",
    note=BASE_NOTE + "Partial: exclude()/reduce are judged by the oracle.",
@@ -223,7 +226,7 @@ CHECKS = {
  "C19": dict(
    text="Coq theorems: an accepted version is well-formed; one clause of a version constraint can fail only with ParseConstraintError / "
         "InvalidVersionError / ValueError; VersionUnion.of on ranges never trips its assertion (the complement used for != is always "
-        "defined); a comma set / '||' of clauses whose parsed members are good (well-formed, proper, no local label) is defined, i.e. the asserts of intersect and VersionUnion.of are unreachable there. All eight parsers and Factory.validate are fuzzed (token-level + mutation, 2500 inputs + 600 mappings per quick run) "
+        "defined); a comma set / '||' of clauses whose parsed members are good (well-formed, proper, no local label) is defined, i.e. the asserts of intersect and VersionUnion.of are unreachable there; every expression of union / intersection / difference over the closed class of C05 is defined (C19_every_expression_defined). All eight parsers and Factory.validate are fuzzed (token-level + mutation, 2500 inputs + 600 mappings per quick run) "
         "for undocumented exceptions, hangs and unprintable values; the model must agree on accept/reject, error class and printed value.",
    design="8/C19",
    note=BASE_NOTE + "re, lark, fastjsonschema are runtime. Known finding D21s (strict-mode validation).",
